@@ -16,43 +16,81 @@ import PybtexModel.Spec.NameFormat
 import PybtexModel.Lemmas.Names
 
 namespace Pybtex
-open Spec Spec.NameFormat
+open Spec Spec.NameFormat NFChars Names
 
 namespace NameFormat
 
-/-! ### character classes -/
+/-! ### character classes
 
-theorem isAlpha_not_verb {c : Char} (h : isAlpha c = true) : isVerbChar c = false := by
+The only facts about the interpreter's `\w` / `\d` tables the proofs use: the braces are not
+word characters (kernel-evaluated table lookups); everything else follows from the definition
+of a format character (`isFmtCh`). -/
+
+theorem word_tables_sorted : sortedR Gen.wordRanges = true ∧ sortedR Gen.decimalRanges = true := by
+  decide +kernel
+
+theorem brace_not_wordS : inRangesS 123 Gen.wordRanges = false ∧ inRangesS 125 Gen.wordRanges = false ∧
+    inRangesS 123 Gen.decimalRanges = false ∧ inRangesS 125 Gen.decimalRanges = false ∧
+    inRangesS 95 Gen.decimalRanges = false := by decide +kernel
+
+theorem isWordU_open : isWordU '{' = false := by
+  show inRanges 123 Gen.wordRanges = false
+  rw [inRangesS_eq word_tables_sorted.1]; exact brace_not_wordS.1
+
+theorem isWordU_close : isWordU '}' = false := by
+  show inRanges 125 Gen.wordRanges = false
+  rw [inRangesS_eq word_tables_sorted.1]; exact brace_not_wordS.2.1
+
+theorem isDecU_open : isDecU '{' = false := by
+  show inRanges 123 Gen.decimalRanges = false
+  rw [inRangesS_eq word_tables_sorted.2]; exact brace_not_wordS.2.2.1
+
+theorem isDecU_close : isDecU '}' = false := by
+  show inRanges 125 Gen.decimalRanges = false
+  rw [inRangesS_eq word_tables_sorted.2]; exact brace_not_wordS.2.2.2.1
+
+theorem isDecU_us : isDecU '_' = false := by
+  show inRanges 95 Gen.decimalRanges = false
+  rw [inRangesS_eq word_tables_sorted.2]; exact brace_not_wordS.2.2.2.2
+
+theorem isFmtCh_us : isFmtCh '_' = false := by simp [isFmtCh]
+
+theorem isFmtCh_open : isFmtCh '{' = false := by simp [isFmtCh, isWordU_open]
+
+theorem isFmtCh_close : isFmtCh '}' = false := by simp [isFmtCh, isWordU_close]
+
+theorem isFmtCh_not_verb {c : Char} (h : isFmtCh c = true) : isVerbChar c = false := by
   simp [isVerbChar, h]
 
-theorem isAlpha_ne_open {c : Char} (h : isAlpha c = true) : c ≠ '{' := by
-  rintro rfl; revert h; decide
+theorem isFmtCh_ne_open {c : Char} (h : isFmtCh c = true) : c ≠ '{' := by
+  rintro rfl; simp [isFmtCh, isWordU_open] at h
 
-theorem isAlpha_ne_close {c : Char} (h : isAlpha c = true) : c ≠ '}' := by
-  rintro rfl; revert h; decide
+theorem isFmtCh_ne_close {c : Char} (h : isFmtCh c = true) : c ≠ '}' := by
+  rintro rfl; simp [isFmtCh, isWordU_close] at h
 
-theorem isAlpha_ne_us {c : Char} (h : isAlpha c = true) : c ≠ '_' := by
-  rintro rfl; revert h; decide
+theorem isFmtCh_ne_us {c : Char} (h : isFmtCh c = true) : c ≠ '_' := by
+  rintro rfl; simp [isFmtCh] at h
 
-theorem isDigit_verb {c : Char} (h : isDigit c = true) : isVerbChar c = true := by
-  simp only [isDigit, Bool.and_eq_true, decide_eq_true_eq] at h
-  have h1 : c ≠ '{' := by rintro rfl; revert h; decide
-  have h2 : c ≠ '}' := by rintro rfl; revert h; decide
-  have h3 : c ≠ '_' := by rintro rfl; revert h; decide
-  have h4 : isAlpha c = false := by
-    simp only [isAlpha, Bool.or_eq_false_iff, Bool.and_eq_false_iff, decide_eq_false_iff_not]
-    omega
-  simp [isVerbChar, h1, h2, h3, h4]
+theorem isDecU_verb {c : Char} (h : isDecU c = true) : isVerbChar c = true := by
+  have h1 : c ≠ '{' := by rintro rfl; rw [isDecU_open] at h; cases h
+  have h2 : c ≠ '}' := by rintro rfl; rw [isDecU_close] at h; cases h
+  have h3 : c ≠ '_' := by rintro rfl; rw [isDecU_us] at h; cases h
+  simp [isVerbChar, isFmtCh, h1, h2, h3, h]
 
 /-- the first test of the loop after `{`: `[^{}\w]` -/
-theorem nonword_verb {c : Char} (h1 : c ≠ '{') (h2 : c ≠ '}') (h3 : isWordChar c = false) :
+theorem nonword_verb {c : Char} (h1 : c ≠ '{') (h2 : c ≠ '}') (h3 : isWordU c = false) :
     isVerbChar c = true := by
-  simp only [isWordChar, isAlnum, Bool.or_eq_false_iff, decide_eq_false_iff_not] at h3
-  simp [isVerbChar, h1, h2, h3.1.1, h3.2]
+  have h4 : c ≠ '_' := by
+    rintro rfl
+    have : isWordU '_' = true := by
+      show inRanges 95 Gen.wordRanges = true
+      rw [inRangesS_eq word_tables_sorted.1]; decide +kernel
+    rw [this] at h3; cases h3
+  simp [isVerbChar, isFmtCh, h1, h2, h3, h4]
 
-theorem word_cases {c : Char} (h : isWordChar c = true) (hd : isDigit c = false) (ha : isAlpha c = false) :
+theorem word_cases {c : Char} (h : isWordU c = true) (hd : isDecU c = false) (ha : isFmtCh c = false) :
     c = '_' := by
-  simpa [isWordChar, isAlnum, hd, ha] using h
+  simpa [isFmtCh, h, hd] using ha
 
 /-! ### `verbatim`, `group`, `takeBraced` -/
 
@@ -157,7 +195,7 @@ theorem verbatim_stop (d : Nat) (s : Str) :
     | succ d => rw [verbatim_succ]; exact ih _
 
 theorem stop_cases {c : Char} (h1 : c ≠ '{') (h : isVerbChar c = false) :
-    c = '}' ∨ c = '_' ∨ isAlpha c = true := by
+    c = '}' ∨ c = '_' ∨ isFmtCh c = true := by
   simp only [isVerbChar, Bool.and_eq_false_iff, Bool.not_eq_false', decide_eq_false_iff_not,
     Decidable.not_not] at h
   rcases h with ((h | h) | h) | h
@@ -172,14 +210,14 @@ def closed2 (s pre f : Str) (delim : Option Str) (post : Str) : Except FmtErr (F
   | [] => .error .unbalanced
   | c :: rest =>
     if c = '}' then .ok (.part pre (some f) delim (post ++ (verbatim 0 s).1), rest)
-    else if isAlpha c then .error .illegalLetters
+    else if isFmtCh c then .error .illegalLetters
     else .error .tokenRequired
 
 theorem closed2_stop {c : Char} (r pre f : Str) (delim : Option Str) (post : Str)
     (h1 : c ≠ '{') (h : isVerbChar c = false) :
     closed2 (c :: r) pre f delim post =
       if c = '}' then .ok (.part pre (some f) delim post, r)
-      else if isAlpha c then .error .illegalLetters
+      else if isFmtCh c then .error .illegalLetters
       else .error .tokenRequired := by
   simp [closed2, verbatim_zero_stop r h1 h]
 
@@ -251,28 +289,28 @@ theorem namePartLoop_some (fuel : Nat) (s pre f : Str) (delim : Option Str) (pos
             have hlen := dropWhile_length_lt (r := r) hd
             simp only [Option.isSome_some, if_true]
             rw [ih _ _ (by omega)]
-            conv => rhs; rw [← List.takeWhile_append_dropWhile (p := isDigit) (l := c :: r)]
+            conv => rhs; rw [← List.takeWhile_append_dropWhile (p := isDecU) (l := c :: r)]
             rw [closed2_verb]
             intro x hx
-            exact isDigit_verb (mem_takeWhile hx)
+            exact isDecU_verb (mem_takeWhile hx)
           · rename_i hd
             split
             · rename_i ha
-              have : formatCharsOk true (List.takeWhile isAlpha (c :: r)) = false := by
+              have : formatCharsOk true (List.takeWhile isFmtCh (c :: r)) = false := by
                 simp [formatCharsOk]
               simp only [Option.isSome_some, this, Bool.not_false, if_true]
-              rw [closed2_stop _ _ _ _ _ ho (isAlpha_not_verb ha)]
-              simp [isAlpha_ne_close ha, ha]
+              rw [closed2_stop _ _ _ _ _ ho (isFmtCh_not_verb ha)]
+              simp [isFmtCh_ne_close ha, ha]
             · rename_i ha
-              have ha' : isAlpha c = false := by simpa using ha
-              have hd' : isDigit c = false := by simpa using hd
+              have ha' : isFmtCh c = false := by simpa using ha
+              have hd' : isDecU c = false := by simpa using hd
               split
               · rename_i hc
                 subst hc
                 rw [closed2_stop _ _ _ _ _ ho (by decide)]
                 simp
               · rename_i hc
-                have hw : isWordChar c = true := by simpa [hc] using hnw
+                have hw : isWordU c = true := by simpa [hc] using hnw
                 have := word_cases hw hd' ha'
                 subst this
                 rw [closed2_stop _ _ _ _ _ ho (by decide)]
@@ -284,17 +322,17 @@ def closed1 (s pre : Str) (delim : Option Str) (post : Str) : Except FmtErr (Fmt
   | [] => .error .unbalanced
   | c :: rest =>
     if c = '}' then .ok (.part (pre ++ (verbatim 0 s).1) none delim post, rest)
-    else if isAlpha c then
-      if !formatCharsOk false ((c :: rest).takeWhile isAlpha) then .error .illegalLetters
+    else if isFmtCh c then
+      if !formatCharsOk false ((c :: rest).takeWhile isFmtCh) then .error .illegalLetters
       else
-        match (c :: rest).dropWhile isAlpha with
+        match (c :: rest).dropWhile isFmtCh with
         | [] => .error .prematureEOF
         | '{' :: x =>
           match takeBraced 0 x with
           | none => .error .unbalanced
           | some (d, y) =>
-            closed2 y (pre ++ (verbatim 0 s).1) ((c :: rest).takeWhile isAlpha) (some d) post
-        | s2 => closed2 s2 (pre ++ (verbatim 0 s).1) ((c :: rest).takeWhile isAlpha) delim post
+            closed2 y (pre ++ (verbatim 0 s).1) ((c :: rest).takeWhile isFmtCh) (some d) post
+        | s2 => closed2 s2 (pre ++ (verbatim 0 s).1) ((c :: rest).takeWhile isFmtCh) delim post
     else .error .tokenRequired
 
 theorem closed1_verb (l r pre : Str) (delim : Option Str) (post : Str)
@@ -316,16 +354,16 @@ theorem closed1_stop {c : Char} (r pre : Str) (delim : Option Str) (post : Str)
     (h1 : c ≠ '{') (h : isVerbChar c = false) :
     closed1 (c :: r) pre delim post =
       if c = '}' then .ok (.part pre none delim post, r)
-      else if isAlpha c then
-        if !formatCharsOk false ((c :: r).takeWhile isAlpha) then .error .illegalLetters
+      else if isFmtCh c then
+        if !formatCharsOk false ((c :: r).takeWhile isFmtCh) then .error .illegalLetters
         else
-          match (c :: r).dropWhile isAlpha with
+          match (c :: r).dropWhile isFmtCh with
           | [] => .error .prematureEOF
           | '{' :: x =>
             match takeBraced 0 x with
             | none => .error .unbalanced
-            | some (d, y) => closed2 y pre ((c :: r).takeWhile isAlpha) (some d) post
-          | s2 => closed2 s2 pre ((c :: r).takeWhile isAlpha) delim post
+            | some (d, y) => closed2 y pre ((c :: r).takeWhile isFmtCh) (some d) post
+          | s2 => closed2 s2 pre ((c :: r).takeWhile isFmtCh) delim post
       else .error .tokenRequired := by
   simp [closed1, verbatim_zero_stop r h1 h]
 
@@ -365,19 +403,19 @@ theorem namePartLoop_none (fuel : Nat) (s pre : Str) (delim : Option Str) (post 
             have hlen := dropWhile_length_lt (r := r) hd
             simp only [Option.isSome_none, Bool.false_eq_true, if_false]
             rw [ih _ _ (by omega)]
-            conv => rhs; rw [← List.takeWhile_append_dropWhile (p := isDigit) (l := c :: r)]
+            conv => rhs; rw [← List.takeWhile_append_dropWhile (p := isDecU) (l := c :: r)]
             rw [closed1_verb]
             intro x hx
-            exact isDigit_verb (mem_takeWhile hx)
+            exact isDecU_verb (mem_takeWhile hx)
           · rename_i hd
             split
             · rename_i ha
-              rw [closed1_stop _ _ _ _ ho (isAlpha_not_verb ha)]
-              simp only [isAlpha_ne_close ha, if_false, ha, if_true, Option.isSome_none]
+              rw [closed1_stop _ _ _ _ ho (isFmtCh_not_verb ha)]
+              simp only [isFmtCh_ne_close ha, if_false, ha, if_true, Option.isSome_none]
               have hlen := dropWhile_length_lt (r := r) ha
               split
               · rfl
-              · generalize hs2 : List.dropWhile isAlpha (c :: r) = s2 at hlen
+              · generalize hs2 : List.dropWhile isFmtCh (c :: r) = s2 at hlen
                 rcases s2 with _ | ⟨a, x⟩
                 · rfl
                 · by_cases ha2 : a = '{'
@@ -399,15 +437,15 @@ theorem namePartLoop_none (fuel : Nat) (s pre : Str) (delim : Option Str) (post 
                       · rename_i h; cases h; exact absurd rfl ha2
                       · rw [namePartLoop_some _ _ _ _ _ _ (by simp; omega)]
             · rename_i ha
-              have ha' : isAlpha c = false := by simpa using ha
-              have hd' : isDigit c = false := by simpa using hd
+              have ha' : isFmtCh c = false := by simpa using ha
+              have hd' : isDecU c = false := by simpa using hd
               split
               · rename_i hc
                 subst hc
                 rw [closed1_stop _ _ _ _ ho (by decide)]
                 simp
               · rename_i hc
-                have hw : isWordChar c = true := by simpa [hc] using hnw
+                have hw : isWordU c = true := by simpa [hc] using hnw
                 have := word_cases hw hd' ha'
                 subst this
                 rw [closed1_stop _ _ _ _ ho (by decide)]
@@ -459,9 +497,9 @@ theorem closed1_ok {s pre : Str} {p : FmtPart} {rest : Str}
         split at h
         · cases h
         · rename_i hf
-          have hf' : formatCharsOk false (List.takeWhile isAlpha (c :: rest')) = true := by simpa using hf
+          have hf' : formatCharsOk false (List.takeWhile isFmtCh (c :: rest')) = true := by simpa using hf
           have hlen := dropWhile_length_lt (r := rest') ha
-          generalize List.dropWhile isAlpha (c :: rest') = s2 at h hlen
+          generalize List.dropWhile isFmtCh (c :: rest') = s2 at h hlen
           split at h
           · cases h
           · rename_i x
@@ -682,7 +720,7 @@ theorem wf_zero (seen prev : Bool) (s : Str) :
       · simp only [Nat.zero_ne_one, false_and, if_false]
         rw [ih seen false, ih false false]
 
-theorem wf_prev {d : Nat} {seen : Bool} {s : Str} (h : ∀ c r, s = c :: r → isAlpha c = false) :
+theorem wf_prev {d : Nat} {seen : Bool} {s : Str} (h : ∀ c r, s = c :: r → isFmtCh c = false) :
     wellformedAux d seen true s = wellformedAux d seen false s := by
   cases s with
   | nil => simp [wellformedAux]
@@ -709,10 +747,10 @@ theorem wf_verbatim (d : Nat) (seen prev : Bool) (r : Str) :
         · rw [verbatim_zero_verb _ hv]
           have h2 : c ≠ '}' := by rintro rfl; revert hv; decide
           have h3 : c ≠ '_' := by rintro rfl; revert hv; decide
-          have h4 : isAlpha c = false := by
-            cases h : isAlpha c
+          have h4 : isFmtCh c = false := by
+            cases h : isFmtCh c
             · rfl
-            · rw [isAlpha_not_verb h] at hv; cases hv
+            · rw [isFmtCh_not_verb h] at hv; cases hv
           simp only [wellformedAux, ho, h2, h3, h4, if_false, and_false, Bool.false_eq_true]
           have := ih 0 false
           simpa using this
@@ -740,13 +778,13 @@ theorem wf_verbatim (d : Nat) (seen prev : Bool) (r : Str) :
           have := ih (d + 1) false
           simpa using this
 
-theorem wf_letters (l r : Str) (h : ∀ c ∈ l, isAlpha c = true) :
+theorem wf_letters (l r : Str) (h : ∀ c ∈ l, isFmtCh c = true) :
     wellformedAux 1 true true (l ++ r) = wellformedAux 1 true true r := by
   induction l with
   | nil => rfl
   | cons c l ih =>
     have hc := h c (by simp)
-    simp only [List.cons_append, wellformedAux, isAlpha_ne_open hc, isAlpha_ne_close hc, if_false,
+    simp only [List.cons_append, wellformedAux, isFmtCh_ne_open hc, isFmtCh_ne_close hc, if_false,
       hc, and_self, if_true, Bool.true_or, Bool.true_and]
     exact ih (fun x hx => h x (by simp [hx]))
 
@@ -816,7 +854,7 @@ theorem wf_closed2 (s pre f : Str) (delim : Option Str) (post : Str) :
     rcases stop_cases h1 h2 with rfl | rfl | ha
     · simp [wellformedAux, okRest, wellformed, wf_zero true false]
     · simp [wellformedAux, okRest]; decide
-    · simp [wellformedAux, okRest, isAlpha_ne_open ha, isAlpha_ne_close ha, ha]
+    · simp [wellformedAux, okRest, isFmtCh_ne_open ha, isFmtCh_ne_close ha, ha]
 
 theorem wf_closed1 (s pre : Str) (delim : Option Str) (post : Str) :
     wellformedAux 1 false false s = okRest (closed1 s pre delim post) := by
@@ -830,24 +868,24 @@ theorem wf_closed1 (s pre : Str) (delim : Option Str) (post : Str) :
     simp only
     rcases stop_cases h1 h2 with rfl | rfl | ha
     · simp [wellformedAux, okRest, wellformed]
-    · have : isAlpha '_' = false := by decide
+    · have : isFmtCh '_' = false := by decide
       simp [wellformedAux, okRest, this]
-    · simp only [wellformedAux, isAlpha_ne_open ha, isAlpha_ne_close ha, ha, if_false, and_self,
+    · simp only [wellformedAux, isFmtCh_ne_open ha, isFmtCh_ne_close ha, ha, if_false, and_self,
         if_true, Bool.false_or, Bool.not_false, Bool.true_and, formatCharsOk_eq]
-      cases hl : legalLetters (List.takeWhile isAlpha (c :: r))
+      cases hl : legalLetters (List.takeWhile isFmtCh (c :: r))
       · simp [okRest]
       · simp only [Bool.true_and, Bool.not_true, Bool.false_eq_true, if_false]
-        have e : r = (r.takeWhile isAlpha) ++ (c :: r).dropWhile isAlpha := by
+        have e : r = (r.takeWhile isFmtCh) ++ (c :: r).dropWhile isFmtCh := by
           simp [ha]
         have hw : wellformedAux 1 true true r =
-            wellformedAux 1 true true ((c :: r).dropWhile isAlpha) := by
+            wellformedAux 1 true true ((c :: r).dropWhile isFmtCh) := by
           conv => lhs; rw [e]
           exact wf_letters _ _ (fun x hx => mem_takeWhile hx)
         rw [hw]
-        have hhead : ∀ a x, (c :: r).dropWhile isAlpha = a :: x → isAlpha a = false := by
+        have hhead : ∀ a x, (c :: r).dropWhile isFmtCh = a :: x → isFmtCh a = false := by
           intro a x hax
           exact dropWhile_head hax
-        generalize (c :: r).dropWhile isAlpha = s2 at hhead
+        generalize (c :: r).dropWhile isFmtCh = s2 at hhead
         rcases s2 with _ | ⟨a, x⟩
         · simp [wellformedAux, okRest]
         · by_cases hao : a = '{'
@@ -970,7 +1008,7 @@ theorem toSpecRes_closed2 (s pre run : Str) (sep : Option Str) (l : Letters)
     by_cases hc : c = '}'
     · subst hc; simp [toSpecRes, toSpecPart, hl]
     · simp only [hc, if_false]
-      have : toSpecRes (if isAlpha c = true then Except.error FmtErr.illegalLetters
+      have : toSpecRes (if isFmtCh c = true then Except.error FmtErr.illegalLetters
           else Except.error FmtErr.tokenRequired) = none := by split <;> rfl
       rw [this]
       split
@@ -989,21 +1027,21 @@ theorem parsePart_eq (s : Str) : parsePart s = toSpecRes (closed1 s [] none []) 
     simp only
     rcases stop_cases h1 h2 with rfl | rfl | ha
     · simp [toSpecRes, toSpecPart]
-    · have : isAlpha '_' = false := by decide
+    · have : isFmtCh '_' = false := by decide
       simp [this, toSpecRes]
-    · simp only [isAlpha_ne_close ha, if_false, ha, if_true]
-      cases hd : decodeLetters (List.takeWhile isAlpha (c :: r)) with
+    · simp only [isFmtCh_ne_close ha, if_false, ha, if_true]
+      cases hd : decodeLetters (List.takeWhile isFmtCh (c :: r)) with
       | none =>
-        have : formatCharsOk false (List.takeWhile isAlpha (c :: r)) = false := by
+        have : formatCharsOk false (List.takeWhile isFmtCh (c :: r)) = false := by
           rw [← decodeLetters_isSome, hd]; rfl
         simp [this, toSpecRes]
       | some l =>
-        have : formatCharsOk false (List.takeWhile isAlpha (c :: r)) = true := by
+        have : formatCharsOk false (List.takeWhile isFmtCh (c :: r)) = true := by
           rw [← decodeLetters_isSome, hd]; rfl
         simp only [this, Bool.not_true, Bool.false_eq_true, if_false]
-        have hhead : ∀ a x, (c :: r).dropWhile isAlpha = a :: x → isAlpha a = false :=
+        have hhead : ∀ a x, (c :: r).dropWhile isFmtCh = a :: x → isFmtCh a = false :=
           fun a x hax => dropWhile_head hax
-        generalize (c :: r).dropWhile isAlpha = s2 at hhead
+        generalize (c :: r).dropWhile isFmtCh = s2 at hhead
         rcases s2 with _ | ⟨a, x⟩
         · simp [verbatim_nil, toSpecRes]
         · by_cases hao : a = '{'
@@ -1112,8 +1150,8 @@ theorem parse_eq (s : Str) :
 
 /-! ### the formatting functions against the reference rule -/
 
-theorem firstLetterAux_eq (toks : List Tok) :
-    firstLetterAux toks =
+theorem firstLetterAuxU_eq (toks : List Tok) :
+    firstLetterAuxU toks =
       match toks.find? fun t => isSpecialTok t || isLetterTok t with
       | some t => if isSpecialTok t then ['{'] ++ t.1 ++ ['}'] else t.1
       | none => [] := by
@@ -1121,14 +1159,16 @@ theorem firstLetterAux_eq (toks : List Tok) :
   | nil => rfl
   | cons a r ih =>
     obtain ⟨t, l⟩ := a
-    simp only [firstLetterAux, List.find?_cons]
+    simp only [firstLetterAuxU, List.find?_cons]
     by_cases hb : isBraceTok t = true
     · have h1 : isSpecialTok (t, l) = false := by
         simp only [isBraceTok, Bool.or_eq_true, decide_eq_true_eq] at hb
         rcases hb with rfl | rfl <;> rfl
       have h2 : isLetterTok (t, l) = false := by
         simp only [isBraceTok, Bool.or_eq_true, decide_eq_true_eq] at hb
-        rcases hb with rfl | rfl <;> rfl
+        rcases hb with rfl | rfl
+        · simp [isLetterTok, Names.brace_no_class.1.1]
+        · simp [isLetterTok, Names.brace_no_class.2.1.1]
       simp [hb, h1, h2, ih]
     · simp only [hb, Bool.false_eq_true, if_false]
       by_cases hs : startsWithBackslash t = true ∧ t ≠ ['\\']
@@ -1140,7 +1180,7 @@ theorem firstLetterAux_eq (toks : List Tok) :
           · rfl
           · exfalso; apply hs; simpa [isSpecialTok, startsWithBackslash] using h
         simp only [hs, if_false, h1, Bool.false_or]
-        by_cases hl : t ≠ [] ∧ t.all isAlpha = true
+        by_cases hl : t ≠ [] ∧ t.all isAlphaN = true
         · have h2 : isLetterTok (t, l) = true := by simpa [isLetterTok] using hl
           simp [hl, h2, h1]
         · have h2 : isLetterTok (t, l) = false := by
@@ -1150,17 +1190,17 @@ theorem firstLetterAux_eq (toks : List Tok) :
           simp only [hl, if_false, h2]
           exact ih
 
-theorem bibtexFirstLetter_eq : bibtexFirstLetter = firstLetter := by
+theorem bibtexFirstLetterU_eq : bibtexFirstLetterU = firstLetter := by
   funext s
-  simp only [bibtexFirstLetter, firstLetter]
+  simp only [bibtexFirstLetterU, firstLetter]
   congr 1
   funext toks
-  exact firstLetterAux_eq toks
+  exact firstLetterAuxU_eq toks
 
-theorem bibtexAbbreviate_eq (s : Str) (delim : Option Str) :
-    bibtexAbbreviate s delim = abbreviate delim s := by
-  unfold bibtexAbbreviate abbreviate
-  rw [bibtexFirstLetter_eq]
+theorem bibtexAbbreviateU_eq (s : Str) (delim : Option Str) :
+    bibtexAbbreviateU s delim = abbreviate delim s := by
+  unfold bibtexAbbreviateU abbreviate
+  rw [bibtexFirstLetterU_eq]
   cases (splitTex .hyphen s).mapM firstLetter with
   | none => rfl
   | some ls => cases delim <;> rfl
@@ -1324,8 +1364,8 @@ theorem formatPart_some (person : Person) (pre run : Str) (delim : Option Str) (
   simp only [Option.isNone_some, Bool.false_eq_true, false_and, if_false, body, shownTokens]
   rcases hv with ⟨hv, hf⟩ | ⟨hv, hf⟩
   · simp only [hv, hf, List.length_cons, List.length_nil, if_true, List.head?_cons, hg]
-    have hab : (fun n => bibtexAbbreviate n delim) = abbreviate delim :=
-      funext fun n => bibtexAbbreviate_eq n delim
+    have hab : (fun n => bibtexAbbreviateU n delim) = abbreviate delim :=
+      funext fun n => bibtexAbbreviateU_eq n delim
     rw [hab]
     by_cases ht : tokens person l.slot = []
     · simp [ht, ofOpt]
@@ -1895,7 +1935,7 @@ theorem decodeLetters_text (l : Letters) : decodeLetters l.text = some l := by
   obtain ⟨slot, full⟩ := l
   cases slot <;> cases full <;> decide
 
-theorem letters_text_alpha (l : Letters) : ∀ c ∈ l.text, isAlpha c = true := by
+theorem letters_text_alpha (l : Letters) : ∀ c ∈ l.text, isFmtCh c = true := by
   obtain ⟨slot, full⟩ := l
   cases slot <;> cases full <;> decide
 
@@ -1928,10 +1968,10 @@ theorem okText_head {c : Char} {r : Str} (h : okText true 0 (c :: r) = true) :
     · simp only [hc, if_false, Bool.and_eq_true] at h
       exact Or.inr (by simpa using h.1)
 
-theorem verbChar_not_alpha {c : Char} (h : isVerbChar c = true) : isAlpha c = false := by
-  cases ha : isAlpha c
+theorem verbChar_not_alpha {c : Char} (h : isVerbChar c = true) : isFmtCh c = false := by
+  cases ha : isFmtCh c
   · rfl
-  · rw [isAlpha_not_verb ha] at h; cases h
+  · rw [isFmtCh_not_verb ha] at h; cases h
 
 theorem verbatim_close (rest : Str) : verbatim 0 ('}' :: rest) = ([], '}' :: rest) :=
   verbatim_zero_stop rest (by decide) (by decide)
@@ -1952,32 +1992,32 @@ theorem parsePart_render_some (pre : Str) (l : Letters) (sep : Option Str) (post
   -- the text after the letters
   generalize htail : (match sep with | some s => ['{'] ++ s ++ ['}'] | none => [])
       ++ (post ++ '}' :: rest) = tail
-  have htail_head : ∀ a r, tail = a :: r → isAlpha a = false := by
+  have htail_head : ∀ a r, tail = a :: r → isFmtCh a = false := by
     intro a r h
     rw [← htail] at h
     cases sep with
-    | some s => simp at h; rw [← h.1]; decide
+    | some s => simp at h; rw [← h.1]; exact isFmtCh_open
     | none =>
       cases post with
-      | nil => simp at h; rw [← h.1]; decide
+      | nil => simp at h; rw [← h.1]; exact isFmtCh_close
       | cons c post' =>
         simp at h
         rw [← h.1]
         rcases okText_head hpost with rfl | hv
-        · decide
+        · exact isFmtCh_open
         · exact verbChar_not_alpha hv
   obtain ⟨c, lt, hlt⟩ := List.exists_cons_of_ne_nil (letters_text_ne_nil l)
-  have hc : isAlpha c = true := letters_text_alpha l c (by rw [hlt]; simp)
-  obtain ⟨htw, hdw⟩ := takeWhile_append_stop isAlpha l.text tail (letters_text_alpha l) htail_head
+  have hc : isFmtCh c = true := letters_text_alpha l c (by rw [hlt]; simp)
+  obtain ⟨htw, hdw⟩ := takeWhile_append_stop isFmtCh l.text tail (letters_text_alpha l) htail_head
   unfold parsePart
   rw [verbatim_okText 0 pre _ hpre]
   have hstop : verbatim 0 (l.text ++ tail) = ([], l.text ++ tail) := by
     rw [hlt, List.cons_append]
-    exact verbatim_zero_stop _ (isAlpha_ne_open hc) (isAlpha_not_verb hc)
+    exact verbatim_zero_stop _ (isFmtCh_ne_open hc) (isFmtCh_not_verb hc)
   rw [hstop]
   simp only [List.append_nil]
   rw [hlt, List.cons_append] at htw hdw ⊢
-  simp only [isAlpha_ne_close hc, if_false, hc, if_true, htw, hdw]
+  simp only [isFmtCh_ne_close hc, if_false, hc, if_true, htw, hdw]
   rw [← hlt, decodeLetters_text]
   simp only
   have hpostv : verbatim 0 (post ++ '}' :: rest) = (post, '}' :: rest) := by
